@@ -15,10 +15,12 @@ THEOREMS = [
     "Nix.C19.C19_roundtrip",
     "Nix.C19.C19_created_fixed",
     "Nix.C19.C19_monotone",
+    "Nix.C19.C19_monotone_from_open",
     "Nix.C19.C19_auto_off",
     "Nix.C19.C19_listed_setters_touch_self",
     "Nix.C19.C19_auto_on_local",
     "Nix.C19.C19_only_target",
+    "Nix.C19.C19_refused_unchanged",
     "Nix.C19.C19_force_roundtrip",
 ]
 ASSUMPTIONS = [
@@ -251,6 +253,8 @@ class Session:
             import nixio.property
             v = nixio.property.OdmlType.Int
         if how == "set":
+            if m == "data_extent" and isinstance(v, list):
+                v = tuple(v)
             setattr(o, m, v)
         elif how == "del":
             delattr(o, m.replace("__deleter", ""))
@@ -435,12 +439,14 @@ CATALOGUE = {
         ("append_sampled_dimension", None, "good", lambda g: _call(2)),
         ("append_range_dimension", None, "good", lambda g: _call([1.0, 2.0, 4.0], "x", "mV")),
         ("append_range_dimension", None, "good", lambda g: _call()),
-        ("append_range_dimension", None, "late", lambda g: _call([3.0, 2.0, 1.0])),
+        ("append_range_dimension", None, "early", lambda g: _call([3.0, 2.0, 1.0])),
         ("append_range_dimension_using_self", None, "good", lambda g: _call()),
         ("append_range_dimension_using_self", None, "early", lambda g: _call([0, 0, 0])),
         ("delete_dimensions", None, "good", lambda g: _call()),
-        ("write_direct", None, "good", lambda g: _call([4.0, 5.0, 6.0])),
-        ("append", None, "good", lambda g: _call([7.0])),
+        ("data_extent", None, "good", lambda g: _v([g.resize(g.rng.randint(3, 6))])),
+        ("data_extent", None, "early", lambda g: _v("x")),
+        ("write_direct", None, "good", lambda g: _call([4.0 + k for k in range(g.size())])),
+        ("append", None, "good", lambda g: _call([7.0 + g.resize(g.size() + 1) * 0])),
         ("__setitem__", None, "good", lambda g: {"how": "setitem", "key": 0, "value": 9.0}),
         ("append", "SourceLinkContainer", "good", _src_link),
     ],
@@ -448,6 +454,7 @@ CATALOGUE = {
         ("units", None, "good", lambda g: _v(["mV", None])),
         ("units", None, "good", lambda g: _v(["s", "kHz"])),
         ("units", None, "early", lambda g: _v([5, 6])),
+        ("data_extent", None, "good", lambda g: _v([g.rng.randint(2, 5)])),
         ("append_rows", None, "good", lambda g: _call([(7, 7.5)])),
         ("write_cell", None, "good", lambda g: _call(3, position=[0, 0])),
     ],
@@ -530,6 +537,7 @@ class Gen:
         self.cur = None
         self.n = 0
         self.clock = 0
+        self.clock_bad = False
         self.auto = True
         self.dist = {}
 
@@ -555,6 +563,13 @@ class Gen:
             c = [i for i in c if self.block_of(i) == b]
         return self.rng.choice(c) if c else None
 
+    def size(self):
+        return self.ents[self.cur].get("size", 3)
+
+    def resize(self, n):
+        self.ents[self.cur]["size"] = n
+        return n
+
     def linked(self, owner, cont, x):
         if (owner, cont, x) in self.links:
             return True
@@ -578,6 +593,23 @@ class Gen:
 
     def op_clock(self):
         r = self.rng.random()
+        if self.clock_bad or not (0 <= self.clock < T2100):
+            self.clock_bad = False
+            self.clock = self.in_range_time()
+            self.count("clock.back_into_range")
+            return ["set_clock", self.clock]
+        if r < 0.03:
+            # a clock datetime cannot represent: setters raise after the write, nothing is stamped
+            self.clock_bad = True
+            self.clock = self.rng.choice([253402300800, 10 ** 12, -62135596801])
+            self.count("clock.unrepresentable")
+            return ["set_clock", self.clock]
+        if r < 0.07:
+            # representable, four-digit year, outside 1970..2100
+            self.clock = self.rng.choice([-1, -86400 * 365, -30610224000, T2100, T2100 + 86400 * 400,
+                                          253402300799, self.rng.randrange(T2100, 253402300800)])
+            self.count("clock.outside_1970_2100")
+            return ["set_clock", self.clock]
         if r < 0.75:
             self.clock = min(self.clock + self.rng.choice([1, 1, 2, 59, 60, 3600, 86400, 1000003, 31536000]),
                              T2100 - 1)
@@ -588,6 +620,11 @@ class Gen:
         else:
             self.clock = max(0, self.clock - self.rng.choice([1, 60, 86400]))
             self.count("clock.backward")
+        return ["set_clock", self.clock]
+
+    def op_clock_forward(self):
+        self.clock = min(self.clock + self.rng.choice([1, 2, 59, 60, 3600, 86400, 1000003]), T2100 - 1)
+        self.count("clock.forward")
         return ["set_clock", self.clock]
 
     def creatable(self):
@@ -654,7 +691,7 @@ class Gen:
             return None
         if m == "append_range_dimension_using_self" and inp == "good" and self.ents[e].get("unsorted"):
             return None
-        if m in ("write_direct", "append", "__setitem__") and via is None:
+        if m in ("write_direct", "append", "__setitem__", "data_extent") and via is None:
             self.ents[e]["unsorted"] = True
         if kind == "property":
             if m == "odml_type" and inp == "good" and self.ents[e].get("novalues"):
@@ -732,7 +769,7 @@ class Gen:
             if r < 0.20:
                 op = self.op_clock()
             elif r < 0.30:
-                op = self.op_create()
+                op = None if self.clock_bad else self.op_create()
             elif r < 0.78:
                 op = self.op_call()
             elif r < 0.88:
@@ -767,7 +804,7 @@ class Gen:
                     t = self.pick(kind)
                     if t is None:
                         continue
-                    ops.append(self.op_clock())
+                    ops.append(self.op_clock_forward())
                     op = self.op_call(t, entry)
                     if op:
                         ops.append(op)
@@ -1168,6 +1205,10 @@ def replay_failure(ctx, fj):
             return Failure("str_to_time(time_to_str(t)) != t", inp, b, inp[1], "util.time_to_str / str_to_time")
     return None
 
+
+LEANCHECK_MODULES = ["NixModel.Props.C19", "NixModel.Lemmas.C19Stamps", "NixModel.Lemmas.C19Time",
+                     "NixModel.Lemmas.C19Days", "NixModel.Pure.Stamps", "NixModel.Pure.Time", "NixModel.Py.Civil",
+                     "NixModel.Generated.Setters"]
 
 READY = True
 MANIFEST = {
